@@ -67,7 +67,7 @@ func (m *CborMut) head(mj byte, v uint64) {
 
 func (m *CborMut) maybeTag() {
 	if m.hit() {
-		tags := []uint64{42, 1, 0, 2, 24, 55799, 42, 42, 256}
+		tags := []uint64{42, 1, 0, 2, 24, 55799, 42, 42, 256, 298, 554, 65578, 4294967338, 41, 43, 42 + 1<<32}
 		m.head(6, tags[m.R.Intn(len(tags))])
 		m.note("tag")
 	}
@@ -163,6 +163,12 @@ func (m *CborMut) Emit(v *Val) {
 			m.head(6, 42)
 			m.str(3, "\x00"+v.S) // tag 42 on a text string
 			m.note("link-on-string")
+		case m.hit():
+			// a tag number that is not 42 but shares its low byte(s)
+			alts := []uint64{298, 554, 65578, 4294967338, 42 + 1<<16}
+			m.head(6, alts[m.R.Intn(len(alts))])
+			m.str(2, "\x00"+v.S)
+			m.note("link-othertag")
 		default:
 			m.head(6, 42)
 			m.str(2, "\x00"+v.S)
